@@ -29,13 +29,22 @@ RULE = ("(1) exhaustive: all 400 x 400 (computer, uod) pairs of strings of lengt
         "the events {register by the owner pair, register by another pair (another split with the same id if one "
         "exists, else another id), open a websocket that reports X (no registration needed: the dispatcher attaches a "
         "channel to whatever id get_engine_id_async returns), close the live websocket}: ALL histories of length <= 6 "
-        "(quick) / <= 7 (thorough) for two name configurations, plus seeded histories of length 6-14 with generated "
-        "names (60 % start with register, connect, ..., disconnect, connect) and two more events (close a websocket that was turned away as a second connection, register a pair "
-        "with an unrelated id); the harness keeps its own model 'a channel for X was accepted and not closed since'; "
+        "(quick) / <= 7 (thorough) for two name configurations, plus ALL histories of the same lengths over that alphabet "
+        "extended by 'the websocket that was turned away as a second connection for X closes' in which that event can "
+        "have an effect (connect .. connect .. close-rejected is a subsequence), plus seeded histories of length 6-14 "
+        "with generated names (45 % start with register, connect, ..., disconnect, connect; 30 % are built around "
+        "connected engine, second websocket with the same id, its close, registrations after it) and two more events "
+        "(close a websocket that was turned away as a second connection, register a pair "
+        "with an unrelated id); websocket closes run the endpoint's on_disconnect handler list the way "
+        "WebsocketRPCEndpoint.main_loop does (an exception of a handler is logged by the endpoint and swallowed: counted, "
+        "the history goes on); the harness keeps its own model 'a channel for X was accepted and not closed since', which "
+        "alone decides what 'connected' means; "
         "every registration resolving to X while the model says live must be answered success=False and must leave "
         "engine data stored under X untouched - in both reachable sub-states (engine data present / absent, the "
         "latter after drop + reconnect without a new registration or after a connect that was never preceded by a "
-        "registration). distinct = the pair / the group / the scenario / the history; "
+        "registration); after every event with a live websocket an rpc addressed to X through the public "
+        "AggregatorDispatcher.rpc_call must arrive on that websocket. "
+        "distinct = the pair / the group / the scenario / the history; "
         "non-trivial = a name contains a separator or URL-special character, resp. the scenario or history contains "
         "a registration that hits a connected id")
 ASSUMPTIONS = [
@@ -45,11 +54,19 @@ ASSUMPTIONS = [
     "registration between P1's register POST and its websocket connect is not judged (counted)",
     "the empty string is a legal name for the purpose of the enumeration (length 0-3)",
     "trusted base: the mocked rpc channel, the scratch SQLite database",
-    "connection histories: 'live' is decided by the harness model (channel opened by the rig, not closed by the "
-    "dispatcher, not closed by the rig since), cross-checked against the dispatcher's channel map (a disagreement is "
-    "counted and the registration is not judged); how the connection came about (with or without a registration in "
-    "this aggregator life-time) does not matter to the refusal rule; registrations while no connection is live are "
-    "counted, not judged",
+    "connection histories: 'live' is decided by the harness model alone (channel opened by the rig, not closed by the "
+    "dispatcher, not closed by the rig since); the dispatcher's own channel map is not consulted (a registration while "
+    "the model says live and the map has no channel for the id is counted and judged like any other); how the "
+    "connection came about (with or without a registration in this aggregator life-time) does not matter to the "
+    "refusal rule; registrations while no connection is live are counted, not judged",
+    "'the id of an engine that is currently connected' is read as: for as long as the engine's websocket is open the id "
+    "denotes that engine - an rpc the aggregator addresses to the id arrives on that websocket (own mechanism key "
+    "C38.connected_engine_not_reachable_under_its_id); an id that was silently detached from its connected engine is "
+    "free for the next registration, which is the take-over the statement excludes",
+    "an exception raised by on_client_disconnect is handled as the server does (WebsocketRPCEndpoint.main_loop logs "
+    "'Failed to serve' and carries on): counted (hist_entry_point_exceptions_swallowed), noted in the evidence, not a "
+    "refutation of this property by itself; an exception raised by the registration handler is an error reply (not "
+    "accepted)",
 ]
 REQUIRED = {"ids_computed": 150000, "takeover_attempts_on_connected_id": 300, "group_pairs_checked": 20000,
             "scenario_id_matches_reply": 500,
@@ -57,7 +74,15 @@ REQUIRED = {"ids_computed": 150000, "takeover_attempts_on_connected_id": 300, "g
             "hist_reg_live_without_engine_data_after_reconnect": 600, "hist_reg_live_never_registered": 300,
             "hist_reg_live_by_other_pair": 500, "hist_reconnects_without_register": 800,
             "hist_reg_not_live_with_engine_data": 500, "hist_reg_not_live_without_engine_data": 500,
-            "hist_random_histories": 300}
+            "hist_random_histories": 300,
+            # a second websocket presents the id of a connected engine, is turned away, closes; registrations after it
+            "hist_second_connection_rejected": 3000, "hist_rejected_channel_closed_while_live": 1000,
+            "hist_reg_live_after_rejected_duplicate_closed": 400,
+            "hist_reg_live_after_rejected_duplicate_closed_with_engine_data": 100,
+            "hist_reg_live_after_rejected_duplicate_closed_without_engine_data": 200,
+            "hist_reg_live_while_rejected_duplicate_still_open": 1000,
+            "hist_reachability_probes_delivered": 15000,
+            "hist_reachability_probes_delivered_after_rejected_duplicate_closed": 2000}
 EXHAUSTIVE_ALL = False
 
 K_JOIN = "C38.underscore_join_collides"
@@ -267,6 +292,7 @@ async def check_scenario(rig, sc, res: Result):
 # connection histories
 
 H_CORE = ("reg_owner", "reg_other", "connect", "disconnect")
+H_DUP = H_CORE + ("disconnect_rejected",)
 H_WIDE = H_CORE + ("connect", "reg_owner", "disconnect_rejected", "reg_unrelated")
 H_CONFIGS = (
     {"owner": ["a_b", "c"], "other": ["a", "b_c"]},                                # another split with the same id
@@ -274,6 +300,18 @@ H_CONFIGS = (
 )
 K_TAKEOVER = "C38.takeover_of_connected_engine_accepted"
 K_TAKEOVER_NO_DATA = "C38.takeover_accepted_when_connected_id_has_no_engine_data"
+K_UNREACHABLE = "C38.connected_engine_not_reachable_under_its_id"
+
+
+def _closes_a_rejected_duplicate(evs) -> bool:
+    """connect ... connect ... disconnect_rejected as a subsequence: the only way the extra event can do anything."""
+    st = 0
+    for e in evs:
+        if st < 2 and e == "connect":
+            st += 1
+        elif st == 2 and e == "disconnect_rejected":
+            return True
+    return False
 
 
 def enum_histories(max_len: int):
@@ -282,19 +320,68 @@ def enum_histories(max_len: int):
             for evs in itertools.product(H_CORE, repeat=ln):
                 yield {"kind": "history", "owner": H_CONFIGS[ci]["owner"], "other": H_CONFIGS[ci]["other"],
                        "events": list(evs)}
+    # second alphabet: additionally 'the websocket that was turned away as a second connection for the id closes';
+    # only the histories in which that event can have an effect (the others are covered above)
+    for ci in range(len(H_CONFIGS)):
+        for ln in range(3, max_len + 1):
+            for evs in itertools.product(H_DUP, repeat=ln):
+                if _closes_a_rejected_duplicate(evs):
+                    yield {"kind": "history", "owner": H_CONFIGS[ci]["owner"], "other": H_CONFIGS[ci]["other"],
+                           "events": list(evs)}
 
 
 def gen_history(rnd: random.Random):
     sc = gen_scenario(rnd)
     evs = []
-    if rnd.random() < 0.6:
+    r = rnd.random()
+    if r < 0.45:
         # the engine registers and connects, loses its websocket and re-opens it with the id it already has
         evs = ["reg_owner", "connect"] + [rnd.choice(H_WIDE) for _ in range(rnd.randint(0, 2))] + ["disconnect", "connect"]
+    elif r < 0.75:
+        # an engine is connected (with or without a registration); a second websocket presents the same id, is turned
+        # away and closes; registrations follow while the first websocket is still open
+        evs = rnd.choice([["reg_owner", "connect"], ["connect"], ["reg_owner", "connect", "disconnect", "connect"]]) + \
+            [rnd.choice(["reg_owner", "reg_other", "connect"]) for _ in range(rnd.randint(0, 2))] + ["connect"] + \
+            [rnd.choice(["reg_owner", "reg_other", "connect", "reg_unrelated"]) for _ in range(rnd.randint(0, 2))] + \
+            ["disconnect_rejected"] + [rnd.choice(["reg_owner", "reg_other", "reg_unrelated", "disconnect_rejected"])
+                                       for _ in range(rnd.randint(1, 3))]
     evs += [rnd.choice(H_WIDE) for _ in range(rnd.randint(6, 14) - len(evs))]
     return {"kind": "history", "owner": sc["p1"], "other": sc["p2"], "events": evs, "random": True}
 
 
+_PROBE_REPLY = []
+
+
+async def probe_reachable(rig, X, live, opened) -> str:
+    """One aggregator -> engine rpc addressed to id X (the public `AggregatorDispatcher.rpc_call`): 'delivered' iff the
+    call arrives on the websocket `live`."""
+    import asyncio
+    import openpectus.protocol.aggregator_messages as AM
+    from opv.rigs.frontend_rig import rpc_reply
+    if not _PROBE_REPLY:
+        _PROBE_REPLY.append(rpc_reply(AM.SuccessMessage()))
+    before = [(c, len(c.script.calls)) for c in opened]
+    task = asyncio.ensure_future(rig.dispatcher.rpc_call(X, AM.SuccessMessage()))
+    got = None
+    for _ in range(6):
+        await asyncio.sleep(0)
+        got = next((c for c, n in before if len(c.script.calls) > n), None)
+        if got is not None or task.done():
+            break
+    if got is not None:
+        for call in got.script.pending():
+            call["future"].set_result(_PROBE_REPLY[0])
+    try:
+        await task
+    except Exception as ex:  # noqa
+        return f"rpc_call raised {type(ex).__name__}"
+    if got is live:
+        return "delivered"
+    return "delivered to another websocket" if got is not None else "not delivered (no channel under the id)"
+
+
 async def check_history(rig, h, res: Result):
+    from opv.rigs.frontend_rig import ws_open, ws_closed
     owner, other = tuple(h["owner"]), tuple(h["other"])
     unrelated = (owner[0] + "#unrelated", owner[1])
     X = rig.agg.create_engine_id(rig.register_msg(*owner))
@@ -302,21 +389,43 @@ async def check_history(rig, h, res: Result):
     live = None            # harness model: the channel accepted for X and not closed since
     live_origin = None     # "registered" / "reconnect" / "never_registered"
     rejected = []          # channels the dispatcher turned away (second connection for X)
+    opened = []            # every websocket of this history
+    rejected_closed_while_live = 0     # turned-away websockets that closed during the current live period
+    unreachable_reported = False
     x_registered_ever = False
-    x_data_since_registration = False     # a registration for X succeeded and X has not been dropped since
     hit = False
     res.count("histories_run")
     if h.get("random"):
         res.count("hist_random_histories")
+
+    async def closed(ch, what):
+        # the server's websocket endpoint logs an exception of on_client_disconnect and goes on: so does the history
+        ex = await ws_closed(rig, ch)
+        if ex is not None:
+            res.count("hist_entry_point_exceptions_swallowed")
+            res.count("hist_on_client_disconnect_raised")
+            note = f"on_client_disconnect raised {type(ex).__name__} ({what}); swallowed as the websocket endpoint does"
+            if note not in res.notes and len(res.notes) < 5:
+                res.notes.append(note)
+
     for n, ev in enumerate(h["events"]):
+        if live is not None and live.close_calls > 0:
+            # the dispatcher itself closed the accepted websocket: the connection is over
+            res.count("hist_live_channel_closed_by_dispatcher")
+            await closed(live, "live websocket closed by the dispatcher")
+            live, live_origin, rejected_closed_while_live = None, None, 0
         if ev == "connect":
-            ch = await rig.connect(X)
-            closed = ch.close.await_count > 0
+            ch = await ws_open(rig, X)
+            opened.append(ch)
+            was_closed = ch.close_calls > 0
             if live is None:
-                if closed:
+                if was_closed:
                     res.count("hist_connect_turned_away_while_not_live")          # not judged
+                    rejected.append(ch)
                 else:
                     live = ch
+                    rejected_closed_while_live = 0
+                    unreachable_reported = False
                     if rig.agg.get_registered_engine_data(X) is not None:
                         live_origin = "registered"
                     elif x_registered_ever:
@@ -327,35 +436,50 @@ async def check_history(rig, h, res: Result):
                         res.count("hist_connects_never_registered")
             else:
                 res.count("hist_second_connection_while_live")
-                if closed:
+                if was_closed:
                     rejected.append(ch)
+                    res.count("hist_second_connection_rejected")
                 else:
                     res.count("hist_second_connection_not_closed")                # not judged
         elif ev == "disconnect":
             if live is not None:
-                await rig.disconnect_channel(live)
+                await closed(live, "close of the accepted websocket")
                 live = None
                 live_origin = None
+                rejected_closed_while_live = 0
                 res.count("hist_disconnects")
         elif ev == "disconnect_rejected":
             if rejected:
-                await rig.disconnect_channel(rejected.pop())
+                await closed(rejected.pop(), "close of a websocket that was turned away")
                 res.count("hist_rejected_channel_closed")
+                if live is not None:
+                    rejected_closed_while_live += 1
+                    res.count("hist_rejected_channel_closed_while_live")
         else:
             pair = pairs[ev]
             pid = rig.agg.create_engine_id(rig.register_msg(*pair))
             ed_before = rig.agg.get_registered_engine_data(pid)
             ident_before = None if ed_before is None else (ed_before.computer_name, ed_before.uod_name, ed_before.location)
+            # 'connected' is decided by the harness model alone: a websocket that reported the id was accepted (not
+            # closed by the dispatcher) and has not closed since - whatever the dispatcher's own maps say
             model_live = pid == X and live is not None
-            map_live = rig.dispatcher._engine_id_channel_map.get(pid) is live if model_live else \
-                pid in rig.dispatcher._engine_id_channel_map
-            r = await rig.register(*pair)
-            if r.engine_id is not None and r.engine_id != pid:
+            map_has = pid in rig.dispatcher._engine_id_channel_map
+            try:
+                r = await rig.register(*pair)
+            except Exception as ex:  # noqa - the REST route would answer 500: the registration is not accepted
+                r = None
+                res.count("hist_entry_point_exceptions_swallowed")
+                res.count("hist_register_raised")
+                note = f"handle_RegisterEngineMsg raised {type(ex).__name__}; treated as an error reply"
+                if note not in res.notes and len(res.notes) < 5:
+                    res.notes.append(note)
+            accepted = r is not None and r.success
+            if r is not None and r.engine_id is not None and r.engine_id != pid:
                 res.violation(None, f"reply engine_id {r.engine_id!r} differs from create_engine_id {pid!r}", h)
-            if model_live != bool(map_live):
-                res.count("hist_model_and_channel_map_disagree")                  # not judged
-            elif model_live:
+            if model_live:
                 hit = True
+                if not map_has:
+                    res.count("hist_reg_live_but_dispatcher_has_no_channel_for_id")   # judged all the same
                 state = "with_engine_data" if ed_before is not None else "without_engine_data"
                 res.count("hist_reg_live_" + state)
                 if ed_before is None:
@@ -364,12 +488,18 @@ async def check_history(rig, h, res: Result):
                               "hist_reg_live_without_engine_data_other")
                 if pair != owner:
                     res.count("hist_reg_live_by_other_pair")
-                if r.success:
+                if rejected_closed_while_live:
+                    res.count("hist_reg_live_after_rejected_duplicate_closed")
+                    res.count("hist_reg_live_after_rejected_duplicate_closed_" + state)
+                elif rejected:
+                    res.count("hist_reg_live_while_rejected_duplicate_still_open")
+                if accepted:
                     res.violation(K_TAKEOVER if ed_before is not None else K_TAKEOVER_NO_DATA,
                                   f"event {n} ({ev}): a websocket reporting engine id {X!r} is open (opened as "
                                   f"{live_origin}; engine data for the id {'present' if ed_before is not None else 'absent'}"
-                                  f"); registration of {pair} resolved to that id and was answered success=True; "
-                                  f"history {h['events'][:n + 1]}", h)
+                                  f"; {rejected_closed_while_live} turned-away second websocket(s) for the id closed "
+                                  f"meanwhile); registration of {pair} resolved to that id and was answered "
+                                  f"success=True; history {h['events'][:n + 1]}", h)
                 ed_now = rig.agg.get_registered_engine_data(pid)
                 if ed_before is not None:
                     ident_now = None if ed_now is None else (ed_now.computer_name, ed_now.uod_name, ed_now.location)
@@ -377,18 +507,36 @@ async def check_history(rig, h, res: Result):
                         res.violation("C38.engine_data_of_connected_engine_replaced",
                                       f"event {n} ({ev}): engine data under the connected id {X!r} changed from "
                                       f"{ident_before} to {ident_now}; history {h['events'][:n + 1]}", h)
-                elif ed_now is not None and not r.success:
+                elif ed_now is not None and not accepted:
                     res.count("hist_engine_data_created_by_refused_registration")  # not judged
             else:
+                if map_has:
+                    res.count("hist_model_and_channel_map_disagree")              # not judged
                 res.count("hist_reg_not_live_" + ("with_engine_data" if ed_before is not None else "without_engine_data"))
-                res.count("hist_reg_not_live_accepted" if r.success else "hist_reg_not_live_refused")   # not judged
-            if pid == X and r.success:
+                res.count("hist_reg_not_live_accepted" if accepted else "hist_reg_not_live_refused")   # not judged
+            if pid == X and accepted:
                 x_registered_ever = True
-    # clean up: close every channel, drop engine data the way a disconnect would
+        # the id of a connected engine keeps denoting that engine: an rpc addressed to X arrives on its websocket
+        if live is not None and live.close_calls == 0 and not unreachable_reported:
+            how = await probe_reachable(rig, X, live, opened)
+            if how == "delivered":
+                res.count("hist_reachability_probes_delivered")
+                if rejected_closed_while_live:
+                    res.count("hist_reachability_probes_delivered_after_rejected_duplicate_closed")
+            else:
+                hit = True
+                unreachable_reported = True
+                res.violation(K_UNREACHABLE,
+                              f"event {n} ({ev}): the websocket accepted for engine id {X!r} (opened as {live_origin}) is "
+                              f"still open, but an rpc addressed to that id is {how}; history {h['events'][:n + 1]}", h)
+    # clean up: close every websocket, drop engine data the way a disconnect would
     if live is not None:
-        await rig.disconnect_channel(live)
+        await closed(live, "clean-up")
+    for ch in rejected:
+        await closed(ch, "clean-up")
     for eid in list(rig.dispatcher._engine_id_channel_map.keys()):
-        await rig.disconnect_engine(eid)
+        await closed(rig.dispatcher._engine_id_channel_map[eid], "clean-up")
+        rig.dispatcher._engine_id_channel_map.pop(eid, None)
     for eid in list(rig.agg._engine_data_map.keys()):
         with rig.database.create_scope():
             rig.agg.from_engine.engine_disconnected(eid)
@@ -417,7 +565,9 @@ def run_random(spec, res: Result):
                 res.exhaustive_parts.append(
                     f"all connection histories of length 1-{spec['hist_len']} over {{register by the owner pair, register "
                     f"by another pair, open a websocket reporting the id, close the live websocket}} for "
-                    f"{len(H_CONFIGS)} name configurations")
+                    f"{len(H_CONFIGS)} name configurations; all histories of length 3-{spec['hist_len']} over that alphabet "
+                    f"plus 'a websocket that was turned away as a second connection closes' that contain connect .. "
+                    f"connect .. close-rejected as a subsequence")
             for _ in range(spec.get("hist_random", 0)):
                 await check_history(rig, gen_history(rnd), res)
         await rig.drain_tasks()
